@@ -101,7 +101,7 @@ def judge2_c07(line, impl):
         sent = "".join(w for w in t[6].split(",") if w != "-") or "-"
         return ("recread %s %s %s %s %s %s" % (t[1], t[2], t[3], t[4], wire, sent), "%s eof 1" % sent)
     return None
-HOOK_COMMITS = ["f0964c3", "f0ee85c", "a38392f", "da161e5", "5e35e30", "48a35e4", "bcc879f", "e7e32d2", "7bc6616", "1d0b9a9", "1418b64", "cbd428e", "2855402", "ccf80ce", "3a7a9aa", "9982186"]
+HOOK_COMMITS = ["f0964c3", "f0ee85c", "a38392f", "da161e5", "5e35e30", "48a35e4", "bcc879f", "e7e32d2", "7bc6616", "1d0b9a9", "1418b64", "cbd428e", "2855402", "ccf80ce", "3a7a9aa", "9982186", "9f32c22"]
 NOT_BUILT_REASON = "no check registered yet: the Lean model/theorems and the correspondence harness for this property have not been built in this session (work in progress, see DESIGN.md §12); the technique applies"
 
 PROPS["C05"] = {
@@ -564,8 +564,10 @@ PROPS["C06"] = {
 
 PROPS["C15"] = {
     "judge": lambda l, a, b: (judge_parsers(l, a, b) if l.split(" ", 1)[0] in ("hsmsg", "hsmsgm") else judge_class_only(("hsseq", "hsout", "hsflight", "chmod", "shmod"))(l, a, b)),
-    "modules": ["Gmsm.Props.C15", "Gmsm.Props.C15Codec", "Gmsm.Props.C15Complete", "Gmsm.Props.C06Read"],
+    "modules": ["Gmsm.Props.C15", "Gmsm.Props.C15Codec", "Gmsm.Props.C15Complete", "Gmsm.Props.C06Read", "Gmsm.Props.C15Limits"],
     "theorems": [
+        "Props.C15Limits.mutualVersionLim_default", "Props.C15Limits.gap_refused", "Props.C15Limits.below_min_refused",
+        "Props.C15Limits.agreed_version", "Props.C15Limits.dispatchLim_refuses",
         "Props.C06Read.read_terminates",
         "Props.C06Read.hs_too_long",
         "Props.C06Read.readHandshake_tooLong",
